@@ -595,6 +595,13 @@ Definition parse_hdr (ts : list tok) : res (hdr * list tok) :=
 (* 6b. helpers of the irregular printers and parsers                   *)
 (* ------------------------------------------------------------------ *)
 
+Fixpoint join_bytes (sep : bytes) (l : list bytes) : bytes :=
+  match l with
+  | [] => []
+  | [x] => x
+  | x :: r => x ++ sep ++ join_bytes sep r
+  end.
+
 (* types.go CertTypeToString, dnssec.go AlgorithmToString; reverse.go
    StringToCertType / StringToAlgorithm are their inverses.  Compared with the
    real maps on every run (case tables2). *)
@@ -699,7 +706,7 @@ Definition string_to_time (s : bytes) : option N :=
   end.
 
 (* hexadecimal numbers: fmt %x / %X with a fixed width, strconv.ParseUint(s, 16, _) *)
-Definition hexb (w : bytes) : bytes := bytes_of_string (hex w).
+Definition hex_bytes (w : bytes) : bytes := bytes_of_string (hex w).
 Definition is_hexdigit (c : N) : bool :=
   is_digit c || ((97 <=? c) && (c <=? 102)) || ((65 <=? c) && (c <=? 70)).
 Definition hexval (c : N) : N := unhexdigit (ascii_of_N c).
@@ -710,7 +717,7 @@ Definition parse_hex (s : bytes) : option N :=
   match s with [] => None | _ => if forallb is_hexdigit s then Some (hexnum s 0) else None end.
 (* types.go euiToString: octet pairs joined by a dash (k = 6 or 8 octets) *)
 Definition eui_to_string (k : nat) (n : N) : bytes :=
-  join_bytes [45] (map (fun b => hexb [b]) (if (k =? 6)%nat then u48 n else u64 n)).
+  join_bytes [45] (map (fun b => hex_bytes [b]) (if (k =? 6)%nat then u48 n else u64 n)).
 (* EUI48.parse / EUI64.parse: the digits when the token is k pairs with a dash after each but the last *)
 Fixpoint eui_digits (k : nat) (s : bytes) : option bytes :=
   match k with
@@ -731,7 +738,7 @@ Definition parse_eui (k : nat) (s : bytes) : option N :=
 Definition nodeid_to_string (up : bool) (n : N) : bytes :=
   match u64 n with
   | [a; b; c; d; e; f; g; h] =>
-    let x := hexb [a; b] ++ [58] ++ hexb [c; d] ++ [58] ++ hexb [e; f] ++ [58] ++ hexb [g; h] in
+    let x := hex_bytes [a; b] ++ [58] ++ hex_bytes [c; d] ++ [58] ++ hex_bytes [e; f] ++ [58] ++ hex_bytes [g; h] in
     if up then upper_bytes x else x
   | _ => []
   end.
@@ -785,13 +792,6 @@ Inductive pval :=
 
 Definition is_rest (f : pfield) : bool :=
   match f with P_qstrs | P_octet | P_hex _ | P_b64 | P_types | P_hinfo | P_uinfo | P_hexsplit => true | _ => false end.
-
-Fixpoint join_bytes (sep : bytes) (l : list bytes) : bytes :=
-  match l with
-  | [] => []
-  | [x] => x
-  | x :: r => x ++ sep ++ join_bytes sep r
-  end.
 
 Definition present_ip4 (a : bytes) : bytes := join_bytes [46] (map dec_bytes a).
 
@@ -1068,7 +1068,6 @@ Definition playout (t : N) : option (list pfield) :=
 (* ------------------------------------------------------------------ *)
 
 Definition b_generic : bytes := [92; 35].   (* backslash hash *)
-Definition hex_bytes (w : bytes) : bytes := bytes_of_string (hex w).
 (* RFC3597.String: the RDATA part *)
 Definition present_3597 (w : bytes) : bytes :=
   b_generic ++ [32] ++ dec_bytes (lenN w) ++ [32] ++ hex_bytes w.
